@@ -227,7 +227,7 @@ type HopByHopHeader struct {
 }
 
 func (h *HopByHopHeader) Len() uint16 {
-	return 8 * uint16(h.HEL+1)
+	return 8 * (uint16(h.HEL) + 1)
 }
 
 func (h *HopByHopHeader) MarshalBinary() (data []byte, err error) {
@@ -249,11 +249,14 @@ func (h *HopByHopHeader) MarshalBinary() (data []byte, err error) {
 }
 
 func (h *HopByHopHeader) UnmarshalBinary(data []byte) error {
+	if len(data) < 2 {
+		return errors.New("The []byte is too short to unmarshal a full HopByHopHeader message.")
+	}
 	n := 0
 	h.NextHeader = data[n]
 	n += 1
 	h.HEL = data[n]
-	if len(data) < 8*int(h.HEL+1) {
+	if len(data) < int(h.Len()) {
 		return errors.New("The []byte is too short to unmarshal a full HopByHopHeader message.")
 	}
 	n += 1
@@ -282,7 +285,7 @@ type RoutingHeader struct {
 }
 
 func (h *RoutingHeader) Len() uint16 {
-	return 8 * uint16(h.HEL+1)
+	return 8 * (uint16(h.HEL) + 1)
 }
 
 func (h *RoutingHeader) MarshalBinary() (data []byte, err error) {
@@ -301,11 +304,14 @@ func (h *RoutingHeader) MarshalBinary() (data []byte, err error) {
 }
 
 func (h *RoutingHeader) UnmarshalBinary(data []byte) error {
+	if len(data) < 2 {
+		return errors.New("The []byte is too short to unmarshal a full RoutingHeader message.")
+	}
 	n := 0
 	h.NextHeader = data[n]
 	n += 1
 	h.HEL = data[n]
-	if len(data) < 8*int(h.HEL+1) {
+	if len(data) < int(h.Len()) {
 		return errors.New("The []byte is too short to unmarshal a full RoutingHeader message.")
 	}
 	n += 1
